@@ -16,7 +16,8 @@ EXPLANATION = (
     "consumers; it must pass a sanitiser (sort*, collection into an unordered or canonically ordered container such as dcbor::Map / "
     "dcbor::Set / BTreeMap / HashSet) or an order-insensitive consumer (any/all/count/.., or add_assertion*, whose result is order "
     "independent by C07.1) before any ordered sink (Vec collect/push, CBORCase::Array); remaining ordered flows need a table entry "
-    "with a reason. C07.5: no add_* entry point other than the two core adders returns self unchanged on a test of the receiver's content. Does not decide equality of dCBOR encodings for equal leaf values of each type.")
+    "with a reason. C07.5: no add_* entry point other than the two core adders returns self unchanged on a test of the receiver's content. Does not decide equality of dCBOR encodings for equal leaf values of each type."
+    " C07.6: the expression builders with_parameter / with_optional_parameter only add.")
 TRUSTED = ['dcbor::Map / dcbor::Set iterate in key-encoding order', 'sort* sorts']
 FLOORS = {'C07.1': 4, 'C07.2': 4, 'C07.3': 2, 'C07.4': 4, 'C07.1/C04.5': 3, 'C07.1/C04.3': 2, 'C07.1/C01.2/node': 1}
 P1 = ('param', 1)
@@ -173,18 +174,14 @@ def check(ctx):
 _check_c07_core = check
 
 
-def check(ctx):
-    _check_c07_core(ctx)
-    # C07.5: the only test of the receiver's CONTENT that may turn an add into "return self unchanged" is the digest-duplicate test of
-    # the two core adders (C04.3). A convenience adder (add_type, add_attachment, add_salt*, add_signature*, add_recipient*, ..) that
-    # returns self on its own query of the receiver (has_type, a predicate lookup, ..) makes the result depend on HOW equal assertions
-    # were added before (a decorated 'isA' assertion hides the plain one), i.e. on assembly order.
+def check_add_self_returns(ctx, inst, prefix='add_', floor=8):
+    """No `add_*` entry point other than the two core adders returns self unchanged on a test of the receiver's content."""
     F = ctx.F
     P1 = ('param', 1)
     CORE = ('add_optional_assertion_envelope', 'add_optional_assertion_envelope_salted')
     n = 0
     for b in F.bodies:
-        if not (b.name.startswith('add_') and b.impl_self and b.impl_self.endswith('::Envelope') and '{closure' not in b.path) or b.name in CORE:
+        if not (b.name.startswith(prefix) and b.impl_self and b.impl_self.endswith('::Envelope') and '{closure' not in b.path) or b.name in CORE:
             continue
         n += 1
         tb = TermBuilder(F, b)
@@ -205,7 +202,33 @@ def check(ctx):
                 if contains(sd, lambda y: isinstance(y, tuple) and y and y[0] == 'call' and any(strip_sites(detry(a)) == P1 for a in y[2])):
                     deciding.append(sd)
             if deciding:
-                ctx.fail('C07.5', ctx.site(b, bi, si), '%s returns self unchanged on a test of the receiver\'s content (%s): whether the assertion is added depends on what was added before, '
-                         'beyond the digest-duplicate rule' % (b.name, fmt(deciding[0])[:160]), key='C07.5|' + b.name)
-    ctx.need('C07.5', n >= 8, 'add_* entry points of Envelope')
-    ctx.ok('C07.5', '-', '%d add_* entry points: none returns self on a query of the receiver (only the two core adders test the receiver, by digest: C04.3)' % n, sample=str(n))
+                ctx.fail(inst, ctx.site(b, bi, si), '%s returns self unchanged on a test of the receiver\'s content (%s): whether the assertion is added depends on what the envelope '
+                         'already holds, beyond the digest-duplicate rule' % (b.name, fmt(deciding[0])[:160]), key='%s|%s' % (inst, b.name))
+    ctx.need(inst, n >= floor, '%s* entry points of Envelope' % prefix)
+    ctx.ok(inst, '-', '%d %s* entry points: none returns self on a query of the receiver (only the two core adders test the receiver, by digest: C04.3)' % (n, prefix), sample=str(n))
+
+
+def check(ctx):
+    _check_c07_core(ctx)
+    # C07.5: the only test of the receiver's CONTENT that may turn an add into "return self unchanged" is the digest-duplicate test of
+    # the two core adders (C04.3). A convenience adder (add_type, add_attachment, add_salt*, add_signature*, add_recipient*, ..) that
+    # returns self on its own query of the receiver (has_type, a predicate lookup, ..) makes the result depend on HOW equal assertions
+    # were added before (a decorated 'isA' assertion hides the plain one), i.e. on assembly order.
+    check_add_self_returns(ctx, 'C07.5')
+    # C07.6: the expression builders only ever ADD: with_parameter / with_optional_parameter bind a parameter by adding one assertion to
+    # the expression's envelope and never remove or replace what is there (parameters are multi-valued; a "rebinding" builder makes the
+    # result depend on the order in which equal parameters were bound)
+    F = ctx.F
+    if ctx.has('expression'):
+        nb = 0
+        for b in F.bodies:
+            if b.name in ('with_parameter', 'with_optional_parameter') and '{closure' not in b.path:
+                nb += 1
+                bad = [c.name for bi, c, t in b.calls() if c is not None and c.name in ('remove_assertion', 'replace_assertion', 'replace_subject', 'elide_removing_target', 'elide_removing_set')]
+                adds = [c.name for bi, c, t in b.calls() if c is not None and (c.name.startswith('add_assertion') or c.name in ('with_parameter', 'with_optional_parameter'))]
+                if bad or not adds:
+                    ctx.fail('C07.6', ctx.site(b), '%s %s: binding a parameter is not a pure add' % (b.path.split('::')[-2] + '::' + b.name, 'calls ' + '/'.join(bad) if bad else 'adds nothing'),
+                             key='C07.6|' + b.path)
+                else:
+                    ctx.ok('C07.6', ctx.site(b), '%s only adds (%s)' % (b.name, '/'.join(sorted(set(adds)))), nontrivial=False)
+        ctx.need('C07.6', nb >= 2, 'expression parameter builders')
